@@ -64,6 +64,15 @@ mod arkc {
             $m.insert(concat!($name, " FftField::SMALL_SUBGROUP_BASE").into(), json!(<$F as FftField>::SMALL_SUBGROUP_BASE));
             $m.insert(concat!($name, " FftField::SMALL_SUBGROUP_BASE_ADICITY").into(), json!(<$F as FftField>::SMALL_SUBGROUP_BASE_ADICITY));
             $m.insert(concat!($name, " FftField::LARGE_SUBGROUP_ROOT_OF_UNITY").into(), json!(<$F as FftField>::LARGE_SUBGROUP_ROOT_OF_UNITY.map(|x| hexs(&$from(&x)))));
+            // what the *type path* resolves to (an inherent constant of the same name would shadow the trait's):
+            // it must be the same value as the trait constant
+            $m.insert(concat!($name, " type-path GENERATOR == FftField::GENERATOR").into(), json!(format!("{:?}", <$F>::GENERATOR) == format!("{:?}", <$F as FftField>::GENERATOR)));
+            $m.insert(concat!($name, " type-path MODULUS == PrimeField::MODULUS").into(), json!(format!("{:?}", <$F>::MODULUS) == format!("{:?}", <$F as PrimeField>::MODULUS)));
+            $m.insert(concat!($name, " type-path MODULUS_MINUS_ONE_DIV_TWO == PrimeField::MODULUS_MINUS_ONE_DIV_TWO").into(), json!(format!("{:?}", <$F>::MODULUS_MINUS_ONE_DIV_TWO) == format!("{:?}", <$F as PrimeField>::MODULUS_MINUS_ONE_DIV_TWO)));
+            $m.insert(concat!($name, " type-path TRACE == PrimeField::TRACE").into(), json!(format!("{:?}", <$F>::TRACE) == format!("{:?}", <$F as PrimeField>::TRACE)));
+            $m.insert(concat!($name, " type-path TRACE_MINUS_ONE_DIV_TWO == PrimeField::TRACE_MINUS_ONE_DIV_TWO").into(), json!(format!("{:?}", <$F>::TRACE_MINUS_ONE_DIV_TWO) == format!("{:?}", <$F as PrimeField>::TRACE_MINUS_ONE_DIV_TWO)));
+            $m.insert(concat!($name, " type-path SQRT_PRECOMP == Field::SQRT_PRECOMP").into(), json!(format!("{:?}", <$F>::SQRT_PRECOMP.is_some()) == format!("{:?}", <$F as Field>::SQRT_PRECOMP.is_some())));
+            $m.insert(concat!($name, " type-path SMALL_SUBGROUP_BASE == FftField::SMALL_SUBGROUP_BASE").into(), json!(format!("{:?}", <$F>::SMALL_SUBGROUP_BASE) == format!("{:?}", <$F as FftField>::SMALL_SUBGROUP_BASE)));
             $m.insert(concat!($name, " Field::ZERO").into(), h(&$from(&<$F as Field>::ZERO)));
             $m.insert(concat!($name, " Field::ONE").into(), h(&$from(&<$F as Field>::ONE)));
             $m.insert(concat!($name, " Field::characteristic()").into(), limbs(<$F as Field>::characteristic()));
